@@ -194,20 +194,46 @@ def run_case(runtime, kind, shape, inject, max_connections=1, yield_in_ops=True,
                 res["a_outcome"] = "error:" + simnet.exc_name(e) if type(e).__name__ not in ("CancelledError", "Cancelled") else "cancelled"
                 res["a_exc"] = repr(e)[:160]
 
+        b_state = {"scope": None, "done": False}
+        a_done = {"v": False}
+
+        async def caller_a_wrapped():
+            try:
+                await caller_a()
+            finally:
+                a_done["v"] = True
+
         async def caller_b():
             CURRENT_CALLER.set("B")
             res["b_outcome"] = "blocked"
             try:
-                with anyio.move_on_after(0.15):
+                with anyio.CancelScope() as scope:
+                    b_state["scope"] = scope
                     res["b"] = await request("B", origin=1)
                     res["b_outcome"] = "ok"
             except BaseException as e:  # noqa
                 res["b_outcome"] = "error:" + simnet.exc_name(e)
+            finally:
+                b_state["done"] = True
+
+        async def idle_rounds(done, budget):
+            """give the other tasks `budget` scheduling rounds (no real time involved): a request that is not through by then is
+            blocked - nothing in the simulated network ever completes later on its own"""
+            for _ in range(budget):
+                if done():
+                    return True
+                await anyio.sleep(0)
+            return done()
 
         async with anyio.create_task_group() as tg:
-            tg.start_soon(caller_a)
+            tg.start_soon(caller_a_wrapped)
             if shape.get("queued"):
                 tg.start_soon(caller_b)
+                # B is given its rounds once A is through
+                while not a_done["v"]:
+                    await anyio.sleep(0)
+                if not await idle_rounds(lambda: b_state["done"], 1500):
+                    b_state["scope"].cancel()
         # ---- A (and B) are done: judge ------------------------------------------------------------
         res["requests_left"] = len(pool._requests)
         res["conns"] = [c.info() for c in pool.connections]
@@ -219,12 +245,23 @@ def run_case(runtime, kind, shape, inject, max_connections=1, yield_in_ops=True,
         net.behavior.a_fault = None
         net.behavior.armed = False
         for j in range(max_connections):
-            try:
-                with anyio.fail_after(0.05):
-                    st, body = await request(f"P{j}", origin=50 + j)
-                probes.append("ok" if st == 200 else f"status:{st}")
-            except BaseException as e:  # noqa
-                probes.append("error:" + simnet.exc_name(e))
+            pr = {"done": False, "out": "error:TimeoutError"}       # the value a blocked probe had under the former real-time limit
+
+            async def probe(j=j, pr=pr):
+                try:
+                    with anyio.CancelScope() as scope:
+                        pr["scope"] = scope
+                        st, body = await request(f"P{j}", origin=50 + j)
+                        pr["out"] = "ok" if st == 200 else f"status:{st}"
+                except BaseException as e:  # noqa
+                    pr["out"] = "error:" + simnet.exc_name(e)
+                finally:
+                    pr["done"] = True
+            async with anyio.create_task_group() as tg:
+                tg.start_soon(probe)
+                if not await idle_rounds(lambda: pr["done"], 1500):
+                    pr["scope"].cancel()
+            probes.append(pr["out"])
         res["probes"] = probes
         res["open_before_close"] = list(net.open_sockets())
         await pool.aclose()
